@@ -1,12 +1,108 @@
 /-
-C03 — text exposition parses back to exactly the exposed series.   (theorems are added bottom-up; see below)
+C03 — text exposition parses back to exactly the exposed series.
+
+Bottom-up: escaping (`unescape_escape`, `helpUnescape_helpEscape`), the scanner invariant (`scan_escape`,
+`nextUnquoted_skips_quoted`), the label block (`parse_labels_render`), the sample line (`sample_line_roundtrip`).
+Every theorem quantifies over ALL strings (no length bound).  `escape` is the chain of `.replace` calls re-extracted from
+`openmetrics/exposition.py` on every run (`Generated.Expo.escapeChain`), the name patterns are the ones re-extracted
+from `validation.py`.
+
+Numbers are tokens: the exposition renders `repr(float(v))` through `floatToGoString`; the parser applies the parameters
+`pyInt`, `pyFloat` (CPython `int()`, `float()`); the only laws used are stated as hypotheses next to the theorem.
+
+Hypotheses forced by the proofs, and what the real code does at the excluded points:
+* F2 — a metric / label name that the legacy pattern accepts although it ends in '\n' (`$` matches before a final line
+  feed): written bare, it splits the line; `Gauge('a','h',['l\n'])` → `a{l\n="v"} 1.0` → the parser raises ValueError.
+  A violation of C03 reachable through the public constructors: a finding (witness theorem `f2_label_name_breaks`).
+* label names rejected by `_validate_labelname` (`__name__`, any `__…` name; under legacy validation every non-legacy
+  name): the parser re-validates label names and raises ValueError.  Only reachable through `Metric.add_sample`, which
+  does not validate; outside "expressible through the public API" (the constructors reject these names).
 -/
 import PromVerif.Model.TextExpo
 import PromVerif.Model.TextParse
+import PromVerif.Lemmas.TextParseSample
 
 namespace PromVerif.Props.C03
+open PromVerif.Py PromVerif.Model PromVerif.Model.Escape PromVerif.Model.ParseCore PromVerif.Model.Validation
+open PromVerif.Model.TextExpo PromVerif.Model.TextParse
+open PromVerif.Lemmas.Escape PromVerif.Lemmas.Scanner PromVerif.Lemmas.TextParse
 
 /-- the extractor found the escape chains, the munging table and the name patterns in the shape it understands -/
 theorem extract_ok : PromVerif.Generated.Expo.extractOk = true ∧ PromVerif.Generated.Validation.extractOk = true := by decide
+
+-- escaping ------------------------------------------------------------------------------------------------------------
+
+/-- `_replace_escaping(_escape(s)) == s` for every string -/
+theorem unescape_escape (s : Str) : replaceEscaping (escape s) = s := Lemmas.Escape.unescape_escape s
+
+example : replaceEscaping (escape "a\\\"\n\\n\\\\\"".toList) = "a\\\"\n\\n\\\\\"".toList := unescape_escape _
+example : escape "\\\n\"".toList = "\\\\\\n\\\"".toList := by decide
+
+/-- `_replace_help_escaping(help_escape(s)) == s` for every string (both HELP escaping sites of `generate_latest`) -/
+theorem helpUnescape_helpEscape (s : Str) :
+    replaceHelpEscaping (escapeHelp s) = s ∧ replaceHelpEscaping (escapeHelpTrailing s) = s :=
+  ⟨Lemmas.Escape.helpUnescape_helpEscape s, by rw [escapeHelpTrailing_eq]; exact Lemmas.Escape.helpUnescape_helpEscape s⟩
+
+example : escapeHelp "a\\n\n\"".toList = "a\\\\n\\n\"".toList := by decide
+
+/-- escaped text contains no raw line feed (so a rendered line is one line) -/
+theorem escape_no_newline (s : Str) : '\n' ∉ escape s ∧ '\n' ∉ escapeHelp s :=
+  ⟨newline_not_mem_escape s, newline_not_mem_escapeHelp s⟩
+
+-- the scanner -----------------------------------------------------------------------------------------------------------
+
+/-- **scanner invariant**: `_next_unquoted_char` scanning `escape v` from (inside quotes, even backslash parity) never
+reports a position and ends in (inside quotes, even parity) — whatever characters are wanted -/
+theorem scan_escape (chs : Char → Bool) (v : Str) :
+    noHit chs (escape v) true false = true ∧ run (escape v) true false = (true, false) :=
+  Lemmas.Scanner.scan_escape chs v
+
+/-- hence in `"escape(v)"rest` the first unquoted occurrence of a character of `chs` ('"' ∉ chs) lies in `rest` -/
+theorem nextUnquoted_skips_quoted (chs : Char → Bool) (hq : chs '"' = false) (v rest : Str) :
+    nextUnquotedChar ('"' :: (escape v ++ ['"']) ++ rest) chs 0 =
+      (nextUnquotedChar rest chs 0).map (· + ((escape v).length + 2)) :=
+  Lemmas.Scanner.nextUnquoted_skips_quoted chs hq v rest
+
+example : nextUnquotedChar ("\"" ++ "a,\\\"}\\\\" ++ "\"" ++ ",b}").toList (fun c => c == ',' || c == '}') 0 = some 9 := by decide
+
+-- the label block -------------------------------------------------------------------------------------------------------
+
+/-- **`parse_labels` inverts the label rendering of `sample_line`**: for every label dict whose names the library's own
+`_validate_labelname` accepts (minus the F2 names), with any label values — every character, every adjacency, empty —
+bare or quoted names, any number of labels -/
+theorem parse_labels_render {legacy : Bool} {ls : List (Str × Str)} (h : LabelsOK legacy ls) :
+    parseLabels legacy (labelStr ls) false = .ok (sortByKey ls) :=
+  Lemmas.TextParse.parse_labels_render h
+
+example : LabelsOK false [("b".toList, "\\\"\n".toList), ("a b".toList, [])] := by decide
+example : LabelsOK true [("le".toList, "+Inf".toList), ("a".toList, "x\\".toList)] := by decide
+example : labelStr [("b".toList, "\\\"\n".toList), ("a b".toList, [])] = "\"a b\"=\"\",b=\"\\\\\\\"\\n\"".toList := by decide
+
+/-- F2 witness: the model (as the code) writes a label name accepted by the legacy pattern bare even when it ends in a
+line feed, and the block no longer parses back -/
+theorem f2_label_name_breaks :
+    validateLabelname true "l\n".toList = .ok () ∧ labelStr [("l\n".toList, "v".toList)] = "l\n=\"v\"".toList ∧
+      parseLabels true (labelStr [("l\n".toList, "v".toList)]) false = .ok [("l".toList, "v".toList)] :=
+  ⟨by rfl, by decide, by rfl⟩
+
+-- the sample line ---------------------------------------------------------------------------------------------------------
+
+/-- **a rendered sample line parses back to the sample**: same name, the label dict, the value token as read by the
+number parameters, the millisecond count `ms` standing for `ms / 1000`.  Laws used about numbers, as hypotheses:
+`int(goString v)` fails and `float(goString v) = v`; `int(str(ms)) = ms`; `ms / 1000` does not overflow. -/
+theorem sample_line_roundtrip (legacy : Bool) (pyInt : Str → Option Int) (pyFloat : Str → Option Nat) (s : Sample) (b : Nat)
+    (h : SampleOK legacy s)
+    (hi : pyInt (Utils.floatToGoString s.value) = none) (hf : pyFloat (Utils.floatToGoString s.value) = some b)
+    (hms : ∀ m, millisOf s = some m → pyInt (intStr m) = some m ∧ intDivOverflows m = false) :
+    parseSample legacy pyInt pyFloat (strip (sampleLine s)) =
+      .ok ⟨s.name, sortByKey s.labels, .flt b, (millisOf s).map (fun m => ⟨.int m⟩)⟩ :=
+  Lemmas.TextParse.sample_line_roundtrip legacy pyInt pyFloat s b h hi hf hms
+
+/-- non-vacuity: a quoted UTF-8 name, an adversarial label value, a value above 2^53 and a timestamp -/
+def exSample : Sample :=
+  ⟨"a b".toList, [("l".toList, "x\\\"\n,}".toList), ("é".toList, [])], "1.2345678901234568e+19".toList, some ⟨.int 1, 1000⟩, none⟩
+
+example : SampleOK false exSample := ⟨by decide, by decide, by decide⟩
+example : sampleLine { exSample with ts := none } = "{\"a b\",l=\"x\\\\\\\"\\n,}\",\"é\"=\"\"} 1.2345678901234568e+19\n".toList := by decide
 
 end PromVerif.Props.C03
